@@ -1203,4 +1203,18 @@ theorem run_hl (cfg : Cfg) (hf : cfg.foldCase = true) : ∀ (ops : List Op) (st 
 
 theorem hl_init : HL {} := ⟨rfl, fun h hm => by simp at hm⟩
 
+
+theorem mem_takeWhile_pred {α : Type} (p : α → Bool) : ∀ (l : List α) (x : α), x ∈ l.takeWhile p → p x = true := by
+  intro l
+  induction l with
+  | nil => intro x h; simp at h
+  | cons a l ih =>
+    intro x h
+    by_cases hp : p a = true
+    · simp only [List.takeWhile_cons, hp, if_true, List.mem_cons] at h
+      rcases h with h | h
+      · rw [h]; exact hp
+      · exact ih x h
+    · simp [List.takeWhile_cons, hp] at h
+
 end PsModel.C12
